@@ -21,7 +21,12 @@ open Ruma Ruma.Canonical Ruma.ContentSchema
 /-- **Serialising the typed content and deserialising it again under the same type is a fixpoint.**
 With the typed value identified with its normal form `t = project s j` (`deser := project`,
 `ser := id` on normal forms, see the model's header): `deser s (ser s t) = some t` for every `t` in
-the image of `deser s`. Every schema, every JSON value, any nesting depth. -/
+the image of `deser s`. Every schema, every JSON value, any nesting depth.
+What this is and is not: it is idempotence of `project` on JSON — what was written is read back and
+written again unchanged. The typed Rust value is not an object of the model, so information a type
+might hold without writing it (a non-injective `Serialize`) is invisible to this theorem; on the
+implementation that part is sampled by the T3 oracle of `c18.content`, which compares the `Debug`
+rendering of the first and the re-read typed value. -/
 theorem roundtrip_fixpoint (s : Schema) (hs : WF s) (j t : JVal) (h : project s j = some t) :
     project s t = some t :=
   project_idem s hs j t h
@@ -127,6 +132,14 @@ theorem unknown_fields_never_fail_catch_all (fields : List Field) (keep : Bool) 
     (h : o.filter (fun e => known fields e.1) = o'.filter (fun e => known fields e.1)) :
     (project (.obj fields keep) (.obj o)).isSome = (project (.obj fields keep) (.obj o')).isSome :=
   obj_accepts_known_only h
+
+/-- **A struct with a catch-all keeps an unknown key verbatim**: a key no field claims, given once, is
+in the output with the `serde_json::Value` of what was given (objects inside it as maps). -/
+theorem catch_all_keeps_unknown (fields : List Field) (o : Obj) (t : JVal) (k : Str) (v : JVal)
+    (h : project (.obj fields true) (.obj o) = some t) (hk : known fields k = false)
+    (hone : o.filter (fun e => e.1 == k) = [(k, v)]) :
+    ∃ o', t = .obj o' ∧ (k, serdeValue v) ∈ o' :=
+  catch_all_keeps fields o t k v h hk hone
 
 /-! ## Non-vacuity: realistic schemas -/
 
@@ -325,6 +338,11 @@ example : project member (.obj [(bs "membership", .str (bs "invite")), (bs "disp
         (bs "signed", .obj [(bs "mxid", .str (bs "@a:b")), (bs "signatures", .obj [(bs "b", .obj [(bs "ed25519:1", .str (bs "sig"))])]),
           (bs "token", .str (bs "t"))])])]) := by rfl
 
+/-- A struct with a catch-all (`CustomEventContent`-like): the unknown key is kept, as a map. -/
+example : project (.obj [req "body" anyStr] true)
+      (.obj [(bs "x", .obj [(bs "b", .int 1), (bs "a", .null), (bs "b", .int 2)]), (bs "body", .str (bs "hi"))])
+    = some (.obj [(bs "body", .str (bs "hi")), (bs "x", .obj [(bs "a", .null), (bs "b", .int 2)])]) := by rfl
+
 /-- Key order, two levels deep (the hypothesis of `key_order_independent` is satisfiable). -/
 example : Shuffled
     (.obj [(bs "membership", .str (bs "join")), (bs "third_party_invite", .obj [(bs "a", .null), (bs "b", .null)])])
@@ -350,6 +368,7 @@ end Examples
 #print axioms key_order_independent
 #print axioms unknown_fields_never_fail
 #print axioms unknown_fields_never_fail_catch_all
+#print axioms catch_all_keeps_unknown
 #print axioms Examples.presentValuesPreservedStatement_false
 #print axioms Examples.wf_powerLevels
 #print axioms Examples.wf_member
